@@ -45,7 +45,7 @@ def plan(tier, seed):
     specs.extend(big.specs(tier, seed, 'C03'))
     meta = dict(
         rule=RULE,
-        require=['big_histories', 'quantify_results', 'apply_form_results', 'same_ref_checks',
+        require=['big_histories', 'huge_histories', 'quantify_results', 'apply_form_results', 'same_ref_checks',
                  'steps', 'autoref_results', 'level_arg_results'],
         assumptions=['truth-table model in vf/oracle.py',
                      'operands held during the call'],
